@@ -26,12 +26,13 @@ type twoWayLayer struct {
 	Widths    map[string]int
 	Shapes    []layerShape
 	Computed  map[string]bool // fields whose wire bytes are computed on serialisation (lengths, checksums)
+	Sweep     map[string]int  // discriminating field → number of values (0…n−1, its wire width) every one of which is a shape
 }
 
 var twoWayLayers = []twoWayLayer{
 	{Pkg: "pkg/ipmi", Type: "V1Session", Ser: "SerializeTo", Dec: "DecodeFromBytes", Buf: "pre",
 		Shapes:   []layerShape{{Name: "no auth code", Ints: map[string]int64{"AuthType": 0}}, {Name: "with auth code", Ints: map[string]int64{"AuthType": 2}}},
-		Computed: map[string]bool{"Length": true}},
+		Computed: map[string]bool{"Length": true}, Sweep: map[string]int{"AuthType": 16}},
 	{Pkg: "pkg/ipmi", Type: "V2Session", Ser: "SerializeTo", Dec: "DecodeFromBytes", Buf: "pre",
 		Widths: map[string]int{"PayloadDescriptor.PayloadType": 6},
 		Shapes: []layerShape{
@@ -40,7 +41,7 @@ var twoWayLayers = []twoWayLayer{
 			{Name: "OEM payload, unauthenticated", Ints: map[string]int64{"PayloadDescriptor.PayloadType": 2}, Bools: map[string]bool{"Authenticated": false}},
 			{Name: "OEM payload, authenticated", Ints: map[string]int64{"PayloadDescriptor.PayloadType": 2}, Bools: map[string]bool{"Authenticated": true}},
 		},
-		Computed: map[string]bool{"Length": true, "Pad": true, "Signature": true}},
+		Computed: map[string]bool{"Length": true, "Pad": true, "Signature": true}, Sweep: map[string]int{"PayloadDescriptor.PayloadType": 64}},
 	{Pkg: "pkg/ipmi", Type: "Message", Ser: "SerializeTo", Dec: "DecodeFromBytes", Buf: "pre",
 		Widths: map[string]int{"RemoteLUN": 2, "LocalLUN": 2, "Sequence": 6, "Operation.Function": 6},
 		Shapes: []layerShape{
@@ -51,7 +52,7 @@ var twoWayLayers = []twoWayLayer{
 			{Name: "OEM request", Ints: map[string]int64{"Operation.Function": 0x2e}},
 			{Name: "OEM response", Ints: map[string]int64{"Operation.Function": 0x2f}},
 		},
-		Computed: map[string]bool{"Checksum1": true, "Checksum2": true}},
+		Computed: map[string]bool{"Checksum1": true, "Checksum2": true}, Sweep: map[string]int{"Operation.Function": 64}},
 	{Pkg: "pkg/ipmi", Type: "RAKPMessage1", Ser: "SerializeTo", Dec: "DecodeFromBytes", Buf: "pre",
 		Widths: map[string]int{"MaxPrivilegeLevel": 4},
 		Shapes: []layerShape{{Name: "any"}}},
@@ -122,7 +123,39 @@ func checkC08(c *Ctx, r *Report) {
 			r.Unk(L.Type+"|extraction", ser.Pos(), "layout extraction incomplete: "+why1+why2)
 			continue
 		}
-		for _, sh := range L.Shapes {
+		// every value of a discriminating field within its wire width is a shape: the two
+		// directions must agree on which values take which form, not only on the forms
+		shapes := append([]layerShape{}, L.Shapes...)
+		for fld, n := range L.Sweep {
+			var boolSets []map[string]bool
+			seenB := map[string]bool{}
+			for _, sh := range L.Shapes {
+				k := fmt.Sprint(sh.Bools)
+				if !seenB[k] {
+					seenB[k] = true
+					boolSets = append(boolSets, sh.Bools)
+				}
+			}
+			for v := 0; v < n; v++ {
+				for _, bs := range boolSets {
+					dup := false
+					for _, sh := range L.Shapes {
+						if sh.Ints[fld] == int64(v) && len(sh.Ints) == 1 && fmt.Sprint(sh.Bools) == fmt.Sprint(bs) {
+							dup = true
+						}
+					}
+					if dup {
+						continue
+					}
+					name := fmt.Sprintf("%s=%d", fld, v)
+					if len(bs) > 0 {
+						name += fmt.Sprintf(" %v", bs)
+					}
+					shapes = append(shapes, layerShape{Name: name, Ints: map[string]int64{fld: int64(v)}, Bools: bs})
+				}
+			}
+		}
+		for _, sh := range shapes {
 			var sps, dps []layoutEvents
 			for _, p := range sp {
 				if p.OK && p.feasibleWith(sh.Ints, sh.Bools) {
